@@ -191,7 +191,7 @@ def build_root(docs, style='flow', md_style=0, qs=0):
     b = Builder()
     for d in docs:
         text = render_doc(d['raw'], style, md_style, qs)
-        b.add_source(text, raw_yaml=True, filename=d.get('src'), safe=d.get('safe'))
+        b.add_source(text, raw_yaml=(None if d.get('auto') else True), filename=d.get('src'), safe=d.get('safe'))
     return b.build()
 
 def impl_config(docs, world, style='flow', md_style=0, qs=0):
